@@ -83,7 +83,11 @@ fn config_of(spec: &Value, idx: usize) -> Config {
 }
 
 fn run_explore<P: PType>(spec: &Value, idx: usize) -> Value {
-    let embed = if s(spec, "embed", "hi") == "lo" { Embed::Lo } else { Embed::Hi };
+    let embed = match s(spec, "embed", "hi") {
+        "lo" => Embed::Lo,
+        "mid" => Embed::Mid,
+        _ => Embed::Hi,
+    };
     let uni = Universe::new(s(spec, "universe", "U2"), embed, P::WIDTH);
     let cfg = config_of(spec, idx);
     let obs_names = strs(spec, "observers");
